@@ -514,11 +514,12 @@ pub fn generate(run_seed: u64, quick: bool) -> Scenario {
     // Breadth with CSS: `:nth-child` finds an element's index by scanning its
     // siblings, for every (rule, element) pair - rules x n^2 steps, 10^10 for ten
     // rules over 32000 siblings.  Polynomial and the library's documented way of
-    // working (a stated limit, DESIGN section 12), so such documents stay at 3000 siblings.
+    // working (a stated limit, DESIGN section 12), so such documents stay at 1500 + 1500 siblings
+    // (measured: 1.8*10^8 steps for 3000 + 3000 siblings under ten rules).
     if has_css && wide {
         if let DocSpec::Nest { depth, closes, .. } = &mut doc {
-            *depth = (*depth).min(3000);
-            *closes = (*closes).min(3000);
+            *depth = (*depth).min(1500);
+            *closes = (*closes).min(1500);
         }
     }
     if has_css && !wide {
